@@ -76,6 +76,7 @@ Definition key_ok (tag : str) (r : mreq) (hout : hmap) (k : str) : bool :=
   else opt_vals_eqb out (raw_get k hin).
 
 Definition doc_keys : list str := [via_key; k_xff; k_xfp; k_xfh; k_xfu; k_ua; k_cl].
+Definition fwd_names : list str := [k_xff; k_xfp; k_xfh; k_xfu].   (* untouched on CONNECT *)
 
 (* a refusal is justified only by a loop (own tag in the chain that is left after removal) -> 400,
    or by contradictory framing fields (any error status) *)
@@ -95,6 +96,70 @@ Definition scase_prop_ok (c : scase) : bool :=
   | SPassed cl h =>
       Bool.eqb cl (q_close r) &&
       forallb (key_ok (s_tag c) r h) (doc_keys ++ keys (q_hdr r) ++ keys h)
+  end.
+
+(* ---------- configured stacks: --header rules and --credentials ---------- *)
+Record ccase := { c_cfg : pcfg; c_tag : str; c_in : mreq; c_out : sres }.
+
+Definition ccase_model_ok (c : ccase) : bool :=
+  match modify_request_cfg (c_cfg c) (c_tag c) (c_in c), c_out c with
+  | Refused st, SRefused st' => st =? st'
+  | Passed r, SPassed cl h => Bool.eqb (q_close r) cl && hmap_eqb (q_hdr r) h
+  | _, _ => false
+  end.
+
+Definition rules_of (cfg : pcfg) (r : mreq) : list G16.Model.rule :=
+  if str_eqb (q_method r) m_connect then p_connect_rules cfg else p_request_rules cfg.
+(* does a rule act on field name k (names are case-insensitive; a prefix rule acts on every name it is a prefix of) *)
+Definition rule_touches (rho : G16.Model.rule) (k : str) : bool :=
+  match G16.Model.r_act rho with
+  | G16.Model.RemoveByPrefix => G16.Model.fold_prefix k (G16.Model.r_name rho)
+  | _ => eq_fold (G16.Model.r_name rho) k
+  end.
+Definition rules_clean (rs : list G16.Model.rule) (ks : list str) : bool :=
+  forallb (fun rho => forallb (fun k => negb (rule_touches rho k)) ks) rs.
+
+(* "site credentials are applied": Authorization is attached only when, after the rules, the request carries none *)
+Definition site_auth_spec (cfg : pcfg) (h : hmap) : hmap :=
+  match raw_get k_authorization h, p_cred cfg with
+  | None, Some (u, p) => raw_set k_authorization [basic_value u p] h
+  | _, _ => h
+  end.
+(* what the documented behaviour leaves under the names that are not in the documented set: the header after the
+   hop-by-hop removal, rewritten by the configured rules in order (C16: G16.Model.apply_rules, meaning proved there),
+   then the site credentials *)
+Definition expected_plain (cfg : pcfg) (r : mreq) : hmap :=
+  site_auth_spec cfg (G16.Model.apply_rules (rules_of cfg r) (after_removal (q_hdr r))).
+
+(* The rules of a case are "clean" when none of them acts on a documented field (Via, X-Forwarded-*, User-Agent,
+   Content-Length): then both groups of clauses can be checked independently.  Otherwise only the correspondence
+   with the model is checked for that case (stated in the evidence). *)
+Definition ckey_ok (c : ccase) (hout : hmap) (k : str) : bool :=
+  let r := c_in c in
+  if negb (rules_clean (rules_of (c_cfg c) r) doc_keys) then true
+  else if mem k doc_keys && negb (str_eqb (q_method r) m_connect && mem k fwd_names) then key_ok (c_tag c) r hout k
+  else opt_vals_eqb (raw_get k hout) (raw_get k (expected_plain (c_cfg c) r)).
+
+Definition ccase_prop_ok (c : ccase) : bool :=
+  let r := c_in c in
+  let h0 := after_removal (q_hdr r) in
+  match c_out c with
+  | SRefused st =>
+      (own_sub (c_tag c) (raw_values via_key h0) && (st =? 400)) ||
+      (framing_contradictory h0 && (400 <=? st) && (st <=? 599))
+  | SPassed cl h =>
+      Bool.eqb cl (q_close r) &&
+      forallb (ckey_ok c h) (doc_keys ++ [k_authorization] ++ keys (q_hdr r) ++ keys h)
+  end.
+
+Definition cdiag (c : ccase) : list str :=
+  if ccase_prop_ok c then [] else
+  match c_out c with
+  | SRefused _ => [b "REFUSED"]
+  | SPassed cl h =>
+      (if Bool.eqb cl (q_close (c_in c)) then [] else [b "CLOSE"]) ++
+      nodup (list_eq_dec N.eq_dec)
+        (filter (fun k => negb (ckey_ok c h k)) (doc_keys ++ [k_authorization] ++ keys (q_hdr (c_in c)) ++ keys h))
   end.
 
 (* which parts of the predicate fail, for naming the input class of a violation *)
